@@ -687,6 +687,10 @@ impl<'a, 'tcx> BodyCx<'a, 'tcx> {
                 #[allow(unreachable_patterns)]
                 _ => vec![("k", s("pother"))],
             },
+            hir::PatKind::Slice(before, mid, after) if mid.is_none() && after.is_empty() => {
+                // fixed-length array / slice pattern `[a, b, c]`
+                vec![("k", s("pslice")), ("pats", J::Arr(before.iter().map(|p| self.pat(p)).collect()))]
+            }
             other => vec![("k", s("pother")), ("dbg", s(format!("{:?}", other).chars().take(80).collect::<String>()))],
         };
         v.push(("ty", s(self.typeck.pat_ty(p).to_string())));
